@@ -210,16 +210,22 @@ fn on_enum(inp: &mut syn::DeriveInput) -> syn::Result<proc_macro2::TokenStream> 
 
     let (_, typ_generics, where_clause) = inp.generics.split_for_impl();
 
+    // The two-element array around index and variant may be of definite or
+    // indefinite length, like every other array the derived decoders read.
     let check = if index_only {
         quote! {
-            let __p778 = __d777.position();
+            let __p777 = __d777.position();
+            let __p778 = __p777;
+            let __indef777 = false;
         }
     } else {
         quote! {
             let __p777 = __d777.position();
-            if Some(2) != __d777.array()? {
-                return Err(minicbor::decode::Error::message("expected enum (2-element array)").at(__p777))
-            }
+            let __indef777 = match __d777.array()? {
+                Some(2) => false,
+                None    => true,
+                Some(_) => return Err(minicbor::decode::Error::message("expected enum (2-element array)").at(__p777))
+            };
             let __p778 = __d777.position();
         }
     };
@@ -231,10 +237,17 @@ fn on_enum(inp: &mut syn::DeriveInput) -> syn::Result<proc_macro2::TokenStream> 
             fn decode(__d777: &mut minicbor::Decoder<'bytes>, __ctx777: &mut Ctx) -> core::result::Result<#name #typ_generics, minicbor::decode::Error> {
                 #tag
                 #check
-                match __d777.u32()? {
+                let __v777 = match __d777.u32()? {
                     #(#rows)*
                     n => Err(minicbor::decode::Error::unknown_variant(n).at(__p778))
+                }?;
+                if __indef777 {
+                    if minicbor::data::Type::Break != __d777.datatype()? {
+                        return Err(minicbor::decode::Error::message("expected enum (2-element array)").at(__p777))
+                    }
+                    __d777.skip()?
                 }
+                Ok(__v777)
             }
         }
     })
